@@ -34,6 +34,13 @@ MUTS = {
  "M22-with-opset-shares-build-cache": ("src/spox/_graph.py", "self, _extra_opset_req=extra_opset_req, _build_result=_build.Cached()", "self, _extra_opset_req=extra_opset_req"),
  "M23-model-req-misses-extra": ("src/spox/_build.py", "set(self.main._extra_opset_req or ()).union(", "set().union("),
  "H3-model-req-from-main-graph-only": ("src/spox/_build.py", "*(node.opset_req for graph in self.graphs for node in self.scope_own[graph])", "*(node.opset_req for node in self.scope_own[self.main])"),
+ "I1-inline-kept-when-other-domain-differs": ("src/spox/_adapt.py", '    target_version = target_opsets[""]\n', """    target_version = target_opsets[""]
+    for imp in node.model.opset_import:
+        if imp.domain not in ("", "ai.onnx") and target_opsets.get(imp.domain, imp.version) != imp.version:
+            warnings.warn(RuntimeWarning(f"Node adapters are only supported for the default domain, but {imp.domain!r} is at {target_opsets[imp.domain]} versus requested {imp.version} of {node_name}."))
+            return protos
+"""),
+ "I2-inline-converter-initializers-fix-reverted": ("src/spox/_adapt.py", "        _initializers_to_constants(target_model.graph)\n", ""),
  "G1-functions-get-default-domain-opsets-only": ("src/spox/_graph.py", "proto = fun.to_onnx_function(extra_opset_req=opset_req)", "proto = fun.to_onnx_function(extra_opset_req=[(d, v) for d, v in opset_req if d == ''])"),
 }
 # several edits at once: (name, [(file, old, new), ...])
